@@ -134,6 +134,8 @@ PROPS = {
             "vstd specs of Vec/slice/Option (push, len, index, clear, iter)",
             "assume_specification for <[T]>::contains and Vec::retain (over the closure's ensures)",
             "SparseMatrix::new trusted (iterator adaptors; postcondition: empty, right shape)",
+            "verif_borrow_usize (trusted wrapper, body `*s.borrow()`): its result is the uninterpreted bval(x); Borrow<usize> for usize / &usize is the identity",
+            "insert_row / insert_col: verified on the reference desugaring of their `for` loop (N7); termination not proved (the loop ends when the caller's iterator ends)",
             "usize is 64-bit",
         ],
     },
@@ -156,7 +158,7 @@ PROPS = {
         "witness": "c06",
         "assumptions": [
             "the standard's tables (n, k, q, degree profile) as transcribed in specs/dvbs2/std.rs.in",
-            "SparseMatrix::new and SparseMatrix::insert_col trusted (external_body) with the contracts of specs/sparse",
+            "SparseMatrix::new trusted (external_body) with the contract of specs/sparse; SparseMatrix::insert_col enters with the contract of specs/sparse/bulk_trusted.rs.in, whose text is the one verified against the body in the C17 unit (specs/sparse/bulk_verified.rs.in)",
             "SparseMatrix::insert and the other sparse operations enter these units with their contracts only; their bodies are verified against the same contracts by the C17 unit (modular: a caller is checked against the callee's contract, not its body)",
             "Borrow<usize> for usize is the identity (axiom_bval_usize)",
             "Code::addresses() returns the same table on every call (uninterpreted addr_table); its shape/range/no-repeat facts are proved per code",
